@@ -77,7 +77,7 @@ func genCOps(rc *RunCtx, c CCfg) []Op {
 		case 3:
 			add(Op{Kind: "nsqd", S: "delete_channel", A: t, B: ch})
 		case 4:
-			add(Op{Kind: "pub", A: t})
+			add(Op{Kind: "pub", A: t, B: int64(r.Pick(0, 0, 1, 3))})
 		case 5:
 			add(Op{Kind: "fault", A: l, B: int64(r.Pick(simnet.RefuseRST, simnet.RefuseBlackhole, simnet.RefuseAcceptClose, simnet.RefuseNone, simnet.RefuseNone))})
 		case 6:
@@ -363,11 +363,35 @@ func (w *cWorld) exec(op Op) {
 			}
 		}
 		t0 := time.Now()
+		// op.B further publishers send to the same topic at the same moment (HTTP):
+		// for a new topic they arrive while the first one is still asking the lookupds
+		extra := int(op.B)
+		if existed {
+			extra = 0
+		}
+		extraDone := make(chan HTTPResp, extra)
+		for k := 0; k < extra; k++ {
+			w.bodyN++
+			eb := []byte(fmt.Sprintf("m%05d", w.bodyN))
+			go func() { extraDone <- httpDo(rc, "POST", w.http, "/pub?topic="+url.QueryEscape(t), eb, nil, nil, 120*time.Second) }()
+		}
 		w.pub.Cmd("PUB "+t, body)
 		f, ok := w.pub.WaitFrame(120*time.Second, isNonMsg)
 		if !ok || string(f.Data) != "OK" {
 			rc.Violate("C16", "publish-failed", "PUB %s during lookupd faults: %q ok=%v after %v", t, f.Data, ok, time.Since(t0))
 			return
+		}
+		published := int64(1)
+		for k := 0; k < extra; k++ {
+			if r := <-extraDone; r.Err == nil && r.Status == 200 {
+				published++
+			} else {
+				rc.Violate("C16", "publish-failed", "POST /pub %s during lookupd faults: %d %v", t, r.Status, r.Err)
+				return
+			}
+		}
+		if extra > 0 {
+			rc.Probe("concurrent_first_publishes")
 		}
 		w.checkLatency("PUB "+t, time.Since(t0))
 		rc.Probe("publishes")
@@ -389,6 +413,10 @@ func (w *cWorld) exec(op Op) {
 					sc := doc.channel(t, ch)
 					if sc == nil || sc.MessageCount < 1 {
 						rc.Violate("C16", "channel-not-precreated", "topic %s first published while a healthy, long-connected lookupd knew channel %s: the channel did not get the first message (%+v)", t, ch, sc)
+						return
+					}
+					if int64(sc.MessageCount) < published {
+						rc.Violate("C16", "channel-missed-first-messages", "topic %s: %d publishes were acknowledged while the topic was being created; channel %s (known to a healthy lookupd beforehand) got only %d of them", t, published, ch, sc.MessageCount)
 						return
 					}
 					w.topics[t][ch] = true
